@@ -172,7 +172,8 @@ def handleDisk (blob : String → List Nat) (args : List String) : String × Lis
         | nd :: r => deletedOf nd.toNat! r
         | [] => ([], [])
       let a : Spec.Dos.ASide := ⟨fs, ds, uncp reserved, filler.toNat!, tail.toNat!, recPad.toNat!, byte0.toNat!⟩
-      ("ok", [(outp, (Spec.Dos.render a).flatten)])
+      -- the answer also says whether the description satisfies the hypotheses of C07.independent_writer_is_read_exactly
+      ((if Spec.Dos.wfDescB a then "ok wf" else "ok notwf"), [(outp, (Spec.Dos.render a).flatten)])
   | _ => ("bad-op", [])
 where
   worldOf' : List String → List (Str × Option Bytes)
